@@ -8,13 +8,28 @@
 //
 // Supported subset (anything else ⇒ the kernel is reported "unsupported: <construct> at file:line" and skipped):
 //   - parameters: data.ND1Float64 series and float64 scalars; results: float64 (named or not)
-//   - before the loop: `n := xs.Len1()`, `idx := []int{0}`, float declarations/assignments, local `const`,
-//     `if cond { return }` guards (the kernel returns before writing anything)
-//   - ONE loop `for i := 0; i < n; i++ { … }`; in it: `idx[0] = i`, float `:=  =  +=  -=  *=  /=`, `if / else if / else`,
-//     `continue`, `xs.Get(idx)` / `xs.Get1(i)` (current element), `out.Set(idx, e)` / `out.Set1(i, e)`
-//   - expressions: + - * /, unary minus, comparisons, && || !, literals, named constants (package-level, local, imported from
-//     packages of the same module; constant expressions are folded EXACTLY with go/constant and rounded once to float64),
-//     math.Min/Max/Abs/Exp/Pow/Log/Log10/Tanh/Cos/Sqrt/Floor/Ceil, m.MinFloat64/MaxFloat64
+//   - before the loop: `n := xs.Len1()`, `idx := []int{0}`, float / bool declarations and assignments (`:=`, `var`), local
+//     `const`, `if` statements that only assign (merged like in the loop), `if cond { return }` guards (the kernel returns
+//     before writing anything), `xs.Get(idx)` with the untouched `idx := []int{0}` / `xs.Get1(0)` (the FIRST element of a
+//     series: an extra argument `xs0` of guard/pre/init; the Go code panics on an empty series), and ONE returning branch
+//     `if cond { [x =] Callee(args…); return … }` that hands the whole run to another kernel function of the module
+//     (DELEGATION: the callee is translated with the nil-pattern of the call into the nested namespace `delegate`, and
+//     `delegates / delegateInit / delegateStep / delegateFinal` express its run in terms of this function's parameters and
+//     series). A returning branch that is not of that form is recorded as `abstractBranch` (its condition is translated,
+//     its body is NOT: reported as such). A function whose whole body is one call of another kernel function (a wrapper
+//     binding a function-valued parameter, e.g. sednetGullyOrig) is a delegation with condition `true`.
+//   - ONE loop `for i := 0; i < n; i++ { … }`; in it: `idx[0] = i`, float / bool `:=  =  +=  -=  *=  /=`, `var`,
+//     `a, b := f(…)`, `if / else if / else`, `continue`, `xs.Get(idx)` / `xs.Get1(i)` (current element),
+//     `out.Set(idx, e)` / `out.Set1(i, e)`. A variable assigned in the loop, carried to the next iteration and not returned
+//     is a HIDDEN state (appended to the state tuple of `init` and `step`).
+//   - expressions: + - * /, unary minus, comparisons, && || !, literals, true / false, named constants (package-level,
+//     local, imported from packages of the same module, math.Pi …; constant expressions are folded EXACTLY with go/constant
+//     and rounded once to float64; a constant defined by one plain decimal literal keeps that literal's spelling),
+//     math.Min/Max/Abs/Exp/Pow/Log/Log10/Tanh/Cos/Sqrt/Floor/Ceil/NaN/IsNaN, m.MinFloat64/MaxFloat64, and calls of
+//     HELPER functions of the module whose parameters and results are all float64 (translated to a Lean `def` of the same
+//     namespace: statements as in the loop plus `return` anywhere; no recursion). A helper outside the subset (e.g. one
+//     that loops) called directly from the kernel body becomes an ABSTRACT function argument of guard/pre/init/step
+//     (reported as such: its body is not tied).
 //   - after the loop: one `return` of variables (the state variables, in order)
 //
 // Semantics the translation relies on (= Go's for this subset): operands are pure, so evaluation order is irrelevant
@@ -70,6 +85,21 @@ var table = []struct {
 	{"models/generation", "particulateNutrients", false},
 	{"models/generation", "bankErosion", false},
 	{"models/generation", "usleFine", false},
+	{"models/generation", "sednetGullyOrig", false},
+	{"models/generation", "sednetGullyDerm", false},
+	{"models/rr", "simhyd", false},
+	{"models/rr", "surm", false},
+	{"models/rr", "gr4j", false},
+	{"models/rr", "sacramento", false},
+	{"models/routing", "storageRouting", false},
+	{"models/storage", "storageParticulateTrapping", false},
+	{"models/storage", "storageDissolvedDecay", false},
+	{"models/storage", "storageTrapAll", false},
+	{"models/storage", "storageWaterBalance", false},
+	{"models/functions", "baseflowFilter", false},
+	{"models/functions", "inputNode", false},
+	{"models/functions", "dateGenerator", false},
+	{"models/climate", "climateVariables", false},
 }
 
 type unsupported struct{ msg string }
@@ -90,6 +120,9 @@ type pkg struct {
 	cidx   map[string]int
 	memo   map[string]*cval
 	busy   map[string]bool
+	funcs  map[string]*ast.FuncDecl // package-level functions (no methods)
+	ffile  map[string]*ast.File
+	types  map[string]*ast.TypeSpec
 }
 
 type world struct {
@@ -103,7 +136,8 @@ func (w *world) load(dir string) *pkg {
 		return p
 	}
 	p := &pkg{dir: dir, files: map[string]*ast.File{}, consts: map[string]*ast.ValueSpec{}, cfile: map[string]*ast.File{},
-		cidx: map[string]int{}, memo: map[string]*cval{}, busy: map[string]bool{}}
+		cidx: map[string]int{}, memo: map[string]*cval{}, busy: map[string]bool{}, funcs: map[string]*ast.FuncDecl{},
+		ffile: map[string]*ast.File{}, types: map[string]*ast.TypeSpec{}}
 	w.pkgs[dir] = p
 	names, _ := filepath.Glob(filepath.Join(w.repo, dir, "*.go"))
 	sort.Strings(names)
@@ -117,7 +151,20 @@ func (w *world) load(dir string) *pkg {
 		}
 		p.files[filepath.Base(fn)] = f
 		for _, d := range f.Decls {
+			if fd, ok := d.(*ast.FuncDecl); ok && fd.Recv == nil {
+				if _, dup := p.funcs[fd.Name.Name]; !dup {
+					p.funcs[fd.Name.Name] = fd
+					p.ffile[fd.Name.Name] = f
+				}
+				continue
+			}
 			gd, ok := d.(*ast.GenDecl)
+			if ok && gd.Tok == token.TYPE {
+				for _, s := range gd.Specs {
+					ts := s.(*ast.TypeSpec)
+					p.types[ts.Name.Name] = ts
+				}
+			}
 			if !ok || gd.Tok != token.CONST {
 				continue
 			}
@@ -186,6 +233,9 @@ func (ce constEnv) eval(e ast.Expr) (*cval, bool) {
 			path, ok := imports(ce.file)[x.Name]
 			if ok && strings.HasPrefix(path, ce.w.module+"/") {
 				return ce.w.load(strings.TrimPrefix(path, ce.w.module+"/")).constant(ce.w, e.Sel.Name)
+			}
+			if lit, isMath := mathConsts[e.Sel.Name]; ok && path == "math" && isMath {
+				return &cval{v: constant.MakeFromLiteral(lit, token.FLOAT, 0)}, true
 			}
 		}
 	case *ast.UnaryExpr:
@@ -271,7 +321,21 @@ func (p *pkg) constant(w *world, name string) (*cval, bool) {
 	return c, true
 }
 
+// the untyped constants of package math (src/math/const.go), digit for digit
+var mathConsts = map[string]string{
+	"E":      "2.71828182845904523536028747135266249775724709369995957496696763",
+	"Pi":     "3.14159265358979323846264338327950288419716939937510582097494459",
+	"Phi":    "1.61803398874989484820458683436563811772030917980576286213544862",
+	"Sqrt2":  "1.41421356237309504880168872420969807856967187537694807317667974",
+	"SqrtE":  "1.64872127070012814684865078781416357165377610071014801157507931",
+	"SqrtPi": "1.77245385090551602729816748334114518279754945612238712821380779",
+	"Ln2":    "0.693147180559945309417232121458176568075500134360255254120680009",
+	"Ln10":   "2.30258509299404568401799145468436420760110148862877297603332790",
+}
+
 var (
+	rePlain = regexp.MustCompile(`^[0-9]+\.[0-9]+$`)
+	reDot   = regexp.MustCompile(`^[0-9]+\.$`)
 	reInt   = regexp.MustCompile(`^(0|[1-9][0-9]*)$`)
 	reFloat = regexp.MustCompile(`^[0-9]+\.[0-9]+([eE][+-]?[0-9]+)?$|^[0-9]+[eE][+-]?[0-9]+$`)
 )
@@ -284,1122 +348,6 @@ func leanOfValue(v constant.Value) string {
 		return "(" + s + ")"
 	}
 	return s
-}
-
-// ---------------------------------------------------------------------------------------------
-// one kernel
-
-type vkind int
-
-const (
-	vFloat vkind = iota
-	vSeries
-	vLen
-	vIdx
-	vLoop
-	vConst
-)
-
-type variable struct {
-	kind   vkind
-	name   string // Go name
-	lean   string
-	c      *cval
-	depth  int  // scope depth of the declaration
-	inLoop bool // declared inside the loop body
-	state  bool
-	param  bool
-	isOut  bool // the per-step value of an output series
-}
-
-type scope struct {
-	vars   map[string]*variable
-	parent *scope
-	depth  int
-}
-
-type frame struct { // a φ-merge in progress: which outer variables the branches assign
-	depth int
-	order []*variable
-	seen  map[*variable]bool
-}
-
-type kernel struct {
-	w       *world
-	p       *pkg
-	file    *ast.File
-	fn      *ast.FuncDecl
-	imp     map[string]string
-	nonNil  bool
-	sc      *scope
-	leanOf  map[token.Pos]string
-	used    map[string]bool
-	scalars []*variable // float64 parameters in order
-	series  []*variable // series parameters in order
-	results []*variable // named results
-	inputs  []*variable
-	outputs []*variable
-	outVar  map[*variable]*variable // series → its per-step value variable
-	states  []*variable
-	preLets []string // pre-loop lets (already rendered)
-	guards  []struct {
-		nLets int
-		cond  string
-	}
-	preLocals []*variable // pre-loop float locals, declaration order
-	liveIn    map[*variable]bool
-	loopVar   *variable
-	idxBound  bool
-	inLoop    bool
-	out       *strings.Builder
-	frames    []*frame
-	isSet     map[*variable]bool
-	always    map[*variable]bool
-	leaves    int
-	assumed   []string
-	nphi      int
-}
-
-func (k *kernel) fail(n ast.Node, format string, a ...interface{}) {
-	pos := k.w.fset.Position(n.Pos())
-	rel, _ := filepath.Rel(k.w.repo, pos.Filename)
-	panic(unsupported{fmt.Sprintf("%s at %s:%d", fmt.Sprintf(format, a...), rel, pos.Line)})
-}
-
-var leanKeywords = map[string]bool{"at": true, "in": true, "end": true, "from": true, "fun": true, "let": true, "have": true, "show": true,
-	"then": true, "else": true, "if": true, "do": true, "match": true, "with": true, "where": true, "open": true, "def": true, "by": true,
-	"for": true, "return": true, "local": true, "private": true, "instance": true, "structure": true, "class": true, "deriving": true,
-	"namespace": true, "section": true, "variable": true, "universe": true, "theorem": true, "example": true, "import": true,
-	"mutual": true, "macro": true, "syntax": true, "notation": true, "infix": true, "prefix": true, "postfix": true, "using": true,
-	"extends": true, "calc": true, "nomatch": true, "nofun": true, "try": true, "catch": true, "finally": true, "unless": true,
-	"break": true, "continue": true, "mut": true, "Type": true, "Prop": true, "Sort": true, "forall": true, "exists": true, "abbrev": true,
-	"inductive": true, "opaque": true, "axiom": true, "set_option": true, "attribute": true, "export": true, "suffices": true, "obtain": true}
-
-func (k *kernel) fresh(base string) string {
-	name := base
-	for i := 1; k.used[name]; i++ {
-		name = fmt.Sprintf("%s_%d", base, i)
-	}
-	k.used[name] = true
-	if leanKeywords[name] {
-		return "«" + name + "»"
-	}
-	return name
-}
-
-func (k *kernel) push() {
-	k.sc = &scope{vars: map[string]*variable{}, parent: k.sc, depth: k.sc.depth + 1}
-}
-
-func (k *kernel) lookup(name string) *variable {
-	for s := k.sc; s != nil; s = s.parent {
-		if v, ok := s.vars[name]; ok {
-			return v
-		}
-	}
-	return nil
-}
-
-func (k *kernel) declare(id *ast.Ident, kind vkind) *variable {
-	if id.Name == "_" {
-		k.fail(id, "blank identifier")
-	}
-	if _, dup := k.sc.vars[id.Name]; dup && kind != vConst {
-		// `x := e` of an existing variable of the same scope is a compile error in Go for a single left-hand side
-		k.fail(id, "redeclaration of %s", id.Name)
-	}
-	v := &variable{kind: kind, name: id.Name, depth: k.sc.depth, inLoop: k.inLoop}
-	if kind == vFloat || kind == vSeries {
-		l, ok := k.leanOf[id.Pos()]
-		if !ok {
-			l = k.fresh(id.Name)
-			k.leanOf[id.Pos()] = l
-		}
-		v.lean = l
-	}
-	k.sc.vars[id.Name] = v
-	return v
-}
-
-func (k *kernel) constEnv() constEnv {
-	return constEnv{w: k.w, p: k.p, file: k.file, locals: func(name string) (*cval, bool, bool) {
-		if v := k.lookup(name); v != nil {
-			return v.c, v.kind == vConst, true
-		}
-		return nil, false, false
-	}}
-}
-
-func (k *kernel) line(ind int, format string, a ...interface{}) {
-	k.out.WriteString(strings.Repeat("  ", ind))
-	fmt.Fprintf(k.out, format, a...)
-	k.out.WriteString("\n")
-}
-
-// ---- expressions: (text, precedence, isBool); precedence 100 atom, 99 application, 70 * /, 65 + -, 50 comparison (Prop)
-
-const (
-	pAtom = 100
-	pApp  = 99
-	pMul  = 70
-	pAdd  = 65
-	pCmp  = 50
-	pAnd  = 35
-	pOr   = 30
-)
-
-func paren(s string, prec, min int) string {
-	if prec < min {
-		return "(" + s + ")"
-	}
-	return s
-}
-
-var mathFns = map[string]struct {
-	lean string
-	n    int
-}{"Min": {"Num.gmin", 2}, "Max": {"Num.gmax", 2}, "Abs": {"Num.abs", 1}, "Exp": {"Num.exp", 1}, "Pow": {"Num.pow", 2},
-	"Log": {"Num.log", 1}, "Log10": {"Num.log10", 1}, "Tanh": {"Num.tanh", 1}, "Cos": {"Num.cos", 1}, "Sqrt": {"Num.sqrt", 1},
-	"Floor": {"Num.floor", 1}, "Ceil": {"Num.ceil", 1}}
-
-func (k *kernel) num(e ast.Expr) (string, int) {
-	s, p, kind := k.expr(e)
-	if kind != 'f' {
-		k.fail(e, "boolean expression where a float64 is expected")
-	}
-	return s, p
-}
-
-func (k *kernel) boolean(e ast.Expr) (string, int) { // as a Lean Bool
-	s, p, kind := k.expr(e)
-	switch kind {
-	case 'b':
-		return s, p
-	case 'p':
-		return "decide (" + s + ")", pApp
-	}
-	k.fail(e, "float64 expression where a condition is expected")
-	return "", 0
-}
-
-// kind: 'f' float, 'p' Prop (a comparison), 'b' Bool
-func (k *kernel) expr(e ast.Expr) (string, int, byte) {
-	if lit, ok := e.(*ast.BasicLit); ok { // a literal keeps its source spelling when Lean reads it the same way
-		if lit.Kind == token.INT && reInt.MatchString(lit.Value) {
-			return lit.Value, pAtom, 'f'
-		}
-		if lit.Kind == token.FLOAT && reFloat.MatchString(lit.Value) {
-			return strings.ToLower(lit.Value), pAtom, 'f'
-		}
-	}
-	if c, ok := k.constEnv().eval(e); ok { // a constant sub-expression is folded exactly, as the Go compiler does
-		return leanOfValue(c.v), pAtom, 'f'
-	}
-	switch e := e.(type) {
-	case *ast.ParenExpr:
-		return k.expr(e.X)
-	case *ast.Ident:
-		v := k.lookup(e.Name)
-		if v == nil || v.kind != vFloat {
-			k.fail(e, "identifier %s is not a float64 variable or constant of the subset", e.Name)
-		}
-		if !v.inLoop && !v.param && !v.state && k.inLoop {
-			k.liveIn[v] = true
-		}
-		return v.lean, pAtom, 'f'
-	case *ast.UnaryExpr:
-		switch e.Op {
-		case token.SUB:
-			s, p := k.num(e.X)
-			return "(-" + paren(s, p, pAtom) + ")", pAtom, 'f'
-		case token.ADD:
-			return k.expr(e.X)
-		case token.NOT:
-			s, p := k.boolean(e.X)
-			return "!" + paren(s, p, pAtom), pApp, 'b'
-		}
-	case *ast.BinaryExpr:
-		switch e.Op {
-		case token.ADD, token.SUB, token.MUL, token.QUO:
-			prec := pAdd
-			if e.Op == token.MUL || e.Op == token.QUO {
-				prec = pMul
-			}
-			l, lp := k.num(e.X)
-			r, rp := k.num(e.Y)
-			return paren(l, lp, prec) + " " + e.Op.String() + " " + paren(r, rp, prec+1), prec, 'f'
-		case token.LSS, token.LEQ, token.GTR, token.GEQ:
-			op := map[token.Token]string{token.LSS: "<", token.LEQ: "≤", token.GTR: ">", token.GEQ: "≥"}[e.Op]
-			l, lp := k.num(e.X)
-			r, rp := k.num(e.Y)
-			return paren(l, lp, pCmp+1) + " " + op + " " + paren(r, rp, pCmp+1), pCmp, 'p'
-		case token.EQL, token.NEQ:
-			if s, ok := k.nilTest(e); ok {
-				return s, pAtom, 'b'
-			}
-			l, lp := k.num(e.X)
-			r, rp := k.num(e.Y)
-			s := "Num.feq " + paren(l, lp, pAtom) + " " + paren(r, rp, pAtom)
-			if e.Op == token.NEQ {
-				return "!(" + s + ")", pApp, 'b'
-			}
-			return s, pApp, 'b'
-		case token.LAND, token.LOR:
-			prec, op := pAnd, "&&"
-			if e.Op == token.LOR {
-				prec, op = pOr, "||"
-			}
-			l, lp := k.boolean(e.X)
-			r, rp := k.boolean(e.Y)
-			return paren(l, lp, prec) + " " + op + " " + paren(r, rp, prec+1), prec, 'b'
-		}
-	case *ast.CallExpr:
-		if f, ok := e.Fun.(*ast.Ident); ok {
-			k.fail(e, "call of function %s", f.Name)
-		}
-		sel, ok := e.Fun.(*ast.SelectorExpr)
-		if !ok {
-			break
-		}
-		x, ok := sel.X.(*ast.Ident)
-		if !ok {
-			break
-		}
-		if v := k.lookup(x.Name); v != nil {
-			if v.kind == vSeries && (sel.Sel.Name == "Get" || sel.Sel.Name == "Get1") && len(e.Args) == 1 {
-				k.indexArg(e, sel.Sel.Name == "Get1")
-				if k.outVar[v] != nil {
-					k.fail(e, "read of output series %s", v.name)
-				}
-				return v.lean, pAtom, 'f'
-			}
-			break
-		}
-		path := k.imp[x.Name]
-		var args []string
-		switch {
-		case path == "math" && mathFns[sel.Sel.Name].n == len(e.Args):
-			args = append(args, mathFns[sel.Sel.Name].lean)
-		case path == k.w.module+"/util/m" && len(e.Args) == 2 && sel.Sel.Name == "MinFloat64":
-			args = append(args, "Num.pmin")
-		case path == k.w.module+"/util/m" && len(e.Args) == 2 && sel.Sel.Name == "MaxFloat64":
-			args = append(args, "Num.pmax")
-		default:
-			k.fail(e, "call of %s.%s", x.Name, sel.Sel.Name)
-		}
-		for _, a := range e.Args {
-			s, p := k.num(a)
-			args = append(args, paren(s, p, pAtom))
-		}
-		return strings.Join(args, " "), pApp, 'f'
-	}
-	k.fail(e, "expression %T", e)
-	return "", 0, 0
-}
-
-// `series != nil` / `series == nil` under the non-nil assumption of the table
-func (k *kernel) nilTest(e *ast.BinaryExpr) (string, bool) {
-	x, ok1 := e.X.(*ast.Ident)
-	y, ok2 := e.Y.(*ast.Ident)
-	if !ok1 || !ok2 || y.Name != "nil" || k.lookup("nil") != nil {
-		return "", false
-	}
-	v := k.lookup(x.Name)
-	if v == nil || v.kind != vSeries {
-		return "", false
-	}
-	if !k.nonNil {
-		k.fail(e, "nil test of series %s (not assumed non-nil in the kernel table)", x.Name)
-	}
-	note := "series " + v.name + " is never nil"
-	found := false
-	for _, a := range k.assumed {
-		found = found || a == note
-	}
-	if !found {
-		k.assumed = append(k.assumed, note)
-	}
-	if e.Op == token.NEQ {
-		return "true", true
-	}
-	return "false", true
-}
-
-// the argument of Get/Set must denote the current step: `idx` after `idx[0] = i`, or the loop variable for Get1/Set1
-func (k *kernel) indexArg(call *ast.CallExpr, one bool) {
-	if !k.inLoop {
-		k.fail(call, "series access outside the loop")
-	}
-	id, ok := call.Args[0].(*ast.Ident)
-	if !ok {
-		k.fail(call, "series access at a computed index")
-	}
-	v := k.lookup(id.Name)
-	if one && v != nil && v == k.loopVar {
-		return
-	}
-	if !one && v != nil && v.kind == vIdx && k.idxBound {
-		return
-	}
-	k.fail(call, "series access at an index other than the loop index")
-}
-
-// ---- statements of the loop body (continuation-passing: `rest` renders everything that follows)
-
-func hasContinue(n ast.Node) bool {
-	found := false
-	ast.Inspect(n, func(x ast.Node) bool {
-		if b, ok := x.(*ast.BranchStmt); ok && b.Tok == token.CONTINUE {
-			found = true
-		}
-		return !found
-	})
-	return found
-}
-
-func (k *kernel) assigned(v *variable) {
-	for _, f := range k.frames {
-		if v.depth <= f.depth && !f.seen[v] {
-			f.seen[v] = true
-			f.order = append(f.order, v)
-		}
-	}
-}
-
-func (k *kernel) assign(ind int, lhs ast.Expr, tok token.Token, rhs ast.Expr, n ast.Node) {
-	id, ok := lhs.(*ast.Ident)
-	if !ok {
-		k.fail(n, "assignment to %T", lhs)
-	}
-	if tok == token.DEFINE {
-		s, _ := k.num(rhs)
-		v := k.declare(id, vFloat)
-		if !k.inLoop {
-			k.preLocals = append(k.preLocals, v)
-		}
-		k.line(ind, "let %s : α := %s", v.lean, s)
-		return
-	}
-	v := k.lookup(id.Name)
-	if v == nil || v.kind != vFloat {
-		k.fail(n, "assignment to %s, which is not a float64 variable", id.Name)
-	}
-	if k.inLoop && !v.inLoop && !v.state {
-		k.fail(n, "loop-carried variable %s is not returned (hidden state)", v.name)
-	}
-	if !k.inLoop && v.param && !v.state {
-		k.fail(n, "assignment to parameter %s before the loop", v.name)
-	}
-	var s string
-	if tok == token.ASSIGN {
-		s, _ = k.num(rhs)
-	} else {
-		op := map[token.Token]token.Token{token.ADD_ASSIGN: token.ADD, token.SUB_ASSIGN: token.SUB, token.MUL_ASSIGN: token.MUL,
-			token.QUO_ASSIGN: token.QUO}[tok]
-		if op == token.ILLEGAL {
-			k.fail(n, "assignment operator %s", tok)
-		}
-		s, _ = k.num(&ast.BinaryExpr{X: id, OpPos: n.Pos(), Op: op, Y: rhs})
-	}
-	k.assigned(v)
-	k.line(ind, "let %s : α := %s", v.lean, s)
-}
-
-func (k *kernel) localConst(d *ast.DeclStmt) {
-	gd, ok := d.Decl.(*ast.GenDecl)
-	if !ok || gd.Tok != token.CONST {
-		k.fail(d, "declaration statement other than const")
-	}
-	for _, s := range gd.Specs {
-		vs := s.(*ast.ValueSpec)
-		if len(vs.Names) != len(vs.Values) {
-			k.fail(vs, "const declaration without a value per name")
-		}
-		for i, n := range vs.Names {
-			c, ok := k.constEnv().eval(vs.Values[i])
-			if ok && vs.Type != nil {
-				t, isId := vs.Type.(*ast.Ident)
-				ok = isId && t.Name == "float64"
-				if ok {
-					c = &cval{v: round64(c.v), typed: true}
-				}
-			}
-			if !ok {
-				k.fail(vs, "constant %s outside the subset", n.Name)
-			}
-			k.declare(n, vConst).c = c
-		}
-	}
-}
-
-func (k *kernel) stmts(list []ast.Stmt, ind int, rest func(ind int)) {
-	for i, s := range list {
-		switch s := s.(type) {
-		case *ast.EmptyStmt:
-		case *ast.DeclStmt:
-			k.localConst(s)
-		case *ast.AssignStmt:
-			if len(s.Lhs) != 1 || len(s.Rhs) != 1 {
-				k.fail(s, "multiple assignment")
-			}
-			if ix, ok := s.Lhs[0].(*ast.IndexExpr); ok { // idx[0] = i
-				x, _ := ix.X.(*ast.Ident)
-				r, _ := s.Rhs[0].(*ast.Ident)
-				z, _ := ix.Index.(*ast.BasicLit)
-				if x == nil || r == nil || z == nil || z.Value != "0" || s.Tok != token.ASSIGN || k.lookup(x.Name) == nil ||
-					k.lookup(x.Name).kind != vIdx || k.lookup(r.Name) != k.loopVar || len(k.frames) > 0 || k.sc.depth != k.loopVar.depth+1 {
-					k.fail(s, "index assignment other than `idx[0] = <loop variable>` at the top of the loop body")
-				}
-				k.idxBound = true
-				continue
-			}
-			k.assign(ind, s.Lhs[0], s.Tok, s.Rhs[0], s)
-		case *ast.IncDecStmt:
-			tok := token.ADD_ASSIGN
-			if s.Tok == token.DEC {
-				tok = token.SUB_ASSIGN
-			}
-			k.assign(ind, s.X, tok, &ast.BasicLit{ValuePos: s.Pos(), Kind: token.INT, Value: "1"}, s)
-		case *ast.ExprStmt: // out.Set(idx, e)
-			call, _ := s.X.(*ast.CallExpr)
-			var sel *ast.SelectorExpr
-			if call != nil {
-				sel, _ = call.Fun.(*ast.SelectorExpr)
-			}
-			var x *ast.Ident
-			if sel != nil {
-				x, _ = sel.X.(*ast.Ident)
-			}
-			if x == nil || (sel.Sel.Name != "Set" && sel.Sel.Name != "Set1") || len(call.Args) != 2 {
-				k.fail(s, "expression statement other than out.Set(idx, e)")
-			}
-			v := k.lookup(x.Name)
-			if v == nil || v.kind != vSeries || k.outVar[v] == nil {
-				k.fail(s, "Set on %s, which is not an output series", x.Name)
-			}
-			k.indexArg(call, sel.Sel.Name == "Set1")
-			e, _ := k.num(call.Args[1])
-			ov := k.outVar[v]
-			k.assigned(ov)
-			k.isSet[ov] = true
-			k.line(ind, "let %s : α := %s", ov.lean, e)
-		case *ast.BranchStmt:
-			if s.Tok != token.CONTINUE || s.Label != nil {
-				k.fail(s, "%s statement", s.Tok)
-			}
-			k.leaf(ind)
-			return
-		case *ast.BlockStmt:
-			k.block(s, ind, func(ind int) { k.stmts(list[i+1:], ind, rest) })
-			return
-		case *ast.IfStmt:
-			if s.Init != nil {
-				k.fail(s, "if with an init statement")
-			}
-			cond, _, kind := k.expr(s.Cond)
-			if kind == 'f' {
-				k.fail(s.Cond, "float64 expression where a condition is expected")
-			}
-			after := func(ind int) { k.stmts(list[i+1:], ind, rest) }
-			switch {
-			case cond == "true":
-				k.block(s.Body, ind, after)
-				return
-			case cond == "false":
-				if s.Else == nil {
-					continue
-				}
-				k.elseBranch(s.Else, ind, after)
-				return
-			case hasContinue(s): // some path ends the step: the rest of the body is rendered inside each branch
-				saved := k.snapshot()
-				k.line(ind, "if %s then", cond)
-				k.block(s.Body, ind+1, after)
-				k.restore(saved)
-				k.line(ind, "else")
-				if s.Else == nil {
-					after(ind + 1)
-				} else {
-					k.elseBranch(s.Else, ind+1, after)
-				}
-				return
-			default:
-				k.phi(s, cond, ind)
-			}
-		default:
-			k.fail(s, "statement %T", s)
-		}
-	}
-	rest(ind)
-}
-
-func (k *kernel) block(b *ast.BlockStmt, ind int, after func(ind int)) {
-	outer := k.sc
-	k.push()
-	k.stmts(b.List, ind, func(ind int) {
-		inner := k.sc
-		k.sc = outer
-		after(ind)
-		k.sc = inner
-	})
-	k.sc = outer
-}
-
-func (k *kernel) elseBranch(e ast.Stmt, ind int, after func(ind int)) {
-	if b, ok := e.(*ast.BlockStmt); ok {
-		k.block(b, ind, after)
-		return
-	}
-	k.stmts([]ast.Stmt{e}, ind, after) // else if
-}
-
-func (k *kernel) snapshot() map[*variable]bool {
-	m := map[*variable]bool{}
-	for v, b := range k.isSet {
-		m[v] = b
-	}
-	return m
-}
-func (k *kernel) restore(m map[*variable]bool) {
-	k.isSet = map[*variable]bool{}
-	for v, b := range m {
-		k.isSet[v] = b
-	}
-}
-
-const tupleMark = "\x00TUPLE\x00"
-
-// an `if` none of whose paths ends the step: both branches are rendered as blocks ending in the tuple of the outer
-// variables (and outputs) that either of them assigns; the merged values are then re-bound (an SSA φ-node).
-func (k *kernel) phi(s *ast.IfStmt, cond string, ind int) {
-	f := &frame{depth: k.sc.depth, seen: map[*variable]bool{}}
-	k.frames = append(k.frames, f)
-	savedOut, before := k.out, k.snapshot()
-	mark := func(ind int) { k.line(ind, "%s", tupleMark) }
-	var thenB, elseB strings.Builder
-	k.out = &thenB
-	k.block(s.Body, ind+2, mark)
-	setThen := k.snapshot()
-	k.restore(before)
-	k.out = &elseB
-	if s.Else == nil {
-		mark(ind + 2)
-	} else {
-		k.elseBranch(s.Else, ind+2, mark)
-	}
-	setElse := k.snapshot()
-	k.out = savedOut
-	k.frames = k.frames[:len(k.frames)-1]
-	k.restore(before)
-	for v := range setThen {
-		if setThen[v] && setElse[v] {
-			k.isSet[v] = true
-		}
-	}
-	if len(f.order) == 0 {
-		return // the statement has no effect on anything that outlives it
-	}
-	for _, v := range f.order { // propagate to enclosing merges
-		k.assigned(v)
-	}
-	names, types := []string{}, []string{}
-	for _, v := range f.order {
-		names = append(names, v.lean)
-		types = append(types, "α")
-	}
-	tuple := "(" + strings.Join(names, ", ") + ")"
-	k.nphi++
-	phi := k.fresh(fmt.Sprintf("phi%d", k.nphi))
-	k.line(ind, "let %s : %s := if %s then", phi, strings.Join(types, " × "), cond)
-	k.out.WriteString(strings.Replace(thenB.String(), tupleMark, tuple, -1))
-	k.line(ind+1, "else")
-	k.out.WriteString(strings.Replace(elseB.String(), tupleMark, tuple, -1))
-	for i, v := range f.order {
-		k.line(ind, "let %s : α := %s%s", v.lean, phi, proj(i, len(f.order)))
-	}
-}
-
-func proj(i, n int) string {
-	if n == 1 {
-		return ""
-	}
-	if i == n-1 {
-		return strings.Repeat(".2", i)
-	}
-	return strings.Repeat(".2", i) + ".1"
-}
-
-func tupleOf(vs []*variable) string {
-	if len(vs) == 0 {
-		return "()"
-	}
-	names := []string{}
-	for _, v := range vs {
-		names = append(names, v.lean)
-	}
-	if len(names) == 1 {
-		return names[0]
-	}
-	return "(" + strings.Join(names, ", ") + ")"
-}
-
-func tupleType(n int) string {
-	if n == 0 {
-		return "Unit"
-	}
-	return strings.TrimSuffix(strings.Repeat("α × ", n), " × ")
-}
-
-// end of one step on this path: the new state and the outputs
-func (k *kernel) leaf(ind int) {
-	if len(k.frames) > 0 {
-		panic("internal: leaf inside a merge")
-	}
-	k.leaves++
-	if k.leaves > 64 {
-		k.fail(k.fn, "more than 64 paths through the loop body")
-	}
-	var outs []*variable
-	for _, o := range k.outputs {
-		ov := k.outVar[o]
-		outs = append(outs, ov)
-		if !k.isSet[ov] {
-			k.always[ov] = false
-		}
-	}
-	switch {
-	case len(k.states) > 0 && len(outs) > 0:
-		k.line(ind, "(%s, %s)", tupleOf(k.states), tupleOf(outs))
-	case len(k.states) > 0:
-		k.line(ind, "%s", tupleOf(k.states))
-	default:
-		k.line(ind, "%s", tupleOf(outs))
-	}
-}
-
-// ---- the function
-
-type report struct {
-	Func      string   `json:"func"`
-	File      string   `json:"file"`
-	Line      int      `json:"line"`
-	Status    string   `json:"status"` // "ok" | "unsupported" | "missing"
-	Reason    string   `json:"reason,omitempty"`
-	Params    []string `json:"params,omitempty"`
-	PreLive   []string `json:"pre_locals,omitempty"`
-	States    []string `json:"states,omitempty"`
-	Inputs    []string `json:"inputs,omitempty"`
-	Outputs   []string `json:"outputs,omitempty"`
-	NotAlways []string `json:"outputs_not_set_on_every_path,omitempty"`
-	Unused    []string `json:"series_not_accessed,omitempty"`
-	Guard     bool     `json:"guard"`
-	Assumed   []string `json:"assumed,omitempty"`
-	Paths     int      `json:"paths,omitempty"`
-}
-
-func isSel(e ast.Expr, x, sel string) bool {
-	s, ok := e.(*ast.SelectorExpr)
-	if !ok {
-		return false
-	}
-	id, ok := s.X.(*ast.Ident)
-	return ok && id.Name == x && s.Sel.Name == sel
-}
-
-func (k *kernel) translate() (text string, rep report) {
-	fn := k.fn
-	pos := k.w.fset.Position(fn.Pos())
-	rel, _ := filepath.Rel(k.w.repo, pos.Filename)
-	rep = report{Func: fn.Name.Name, File: rel, Line: pos.Line}
-	if fn.Recv != nil || fn.Type.TypeParams != nil || fn.Body == nil {
-		k.fail(fn, "method, generic function or missing body")
-	}
-	k.sc = &scope{vars: map[string]*variable{}}
-	// parameters
-	for _, fld := range fn.Type.Params.List {
-		for _, n := range fld.Names {
-			switch {
-			case isSel(fld.Type, "data", "ND1Float64") && k.imp["data"] == k.w.module+"/data":
-				v := k.declare(n, vSeries)
-				v.param = true
-				k.series = append(k.series, v)
-			case func() bool { t, ok := fld.Type.(*ast.Ident); return ok && t.Name == "float64" }():
-				v := k.declare(n, vFloat)
-				v.param = true
-				k.scalars = append(k.scalars, v)
-			default:
-				k.fail(fld, "parameter %s of a type other than float64 / data.ND1Float64", n.Name)
-			}
-		}
-		if len(fld.Names) == 0 {
-			k.fail(fld, "unnamed parameter")
-		}
-	}
-	nres := 0
-	if fn.Type.Results != nil {
-		for _, fld := range fn.Type.Results.List {
-			if t, ok := fld.Type.(*ast.Ident); !ok || t.Name != "float64" {
-				k.fail(fld, "result of a type other than float64")
-			}
-			if len(fld.Names) == 0 {
-				nres++
-			}
-			for _, n := range fld.Names {
-				nres++
-				v := k.declare(n, vFloat)
-				k.results = append(k.results, v)
-				k.preLocals = append(k.preLocals, v)
-				k.preLets = append(k.preLets, fmt.Sprintf("let %s : α := Num.zero", v.lean))
-			}
-		}
-	}
-	// which series are read, which are written (syntactic pre-pass), and the final return
-	read, written := map[string]bool{}, map[string]bool{}
-	ast.Inspect(fn.Body, func(n ast.Node) bool {
-		if c, ok := n.(*ast.CallExpr); ok {
-			if s, ok := c.Fun.(*ast.SelectorExpr); ok {
-				if x, ok := s.X.(*ast.Ident); ok {
-					switch s.Sel.Name {
-					case "Get", "Get1", "Len1":
-						read[x.Name] = true
-					case "Set", "Set1":
-						written[x.Name] = true
-					}
-				}
-			}
-		}
-		return true
-	})
-	k.outVar = map[*variable]*variable{}
-	for _, s := range k.series {
-		switch {
-		case written[s.name]:
-			ov := &variable{kind: vFloat, name: s.name, lean: k.fresh(s.name + "'"), isOut: true}
-			k.outVar[s] = ov
-			k.outputs = append(k.outputs, s)
-		case read[s.name]:
-			k.inputs = append(k.inputs, s)
-		default:
-			rep.Unused = append(rep.Unused, s.name)
-		}
-	}
-	body := fn.Body.List
-	// the final return determines the state variables
-	var ret *ast.ReturnStmt
-	if n := len(body); n > 0 {
-		if r, ok := body[n-1].(*ast.ReturnStmt); ok {
-			ret, body = r, body[:n-1]
-		}
-	}
-	stateOf := func(r *ast.ReturnStmt) []*variable {
-		var vs []*variable
-		if r == nil || len(r.Results) == 0 {
-			if nres != len(k.results) {
-				k.fail(fn, "missing return values")
-			}
-			return append(vs, k.results...)
-		}
-		for _, e := range r.Results {
-			id, ok := e.(*ast.Ident)
-			var v *variable
-			if ok {
-				v = k.lookup(id.Name)
-			}
-			if v == nil || v.kind != vFloat {
-				k.fail(r, "returned expression that is not a float64 variable")
-			}
-			for _, o := range vs {
-				if o == v {
-					k.fail(r, "variable %s returned twice", v.name)
-				}
-			}
-			vs = append(vs, v)
-		}
-		return vs
-	}
-	// find the loop
-	loopAt := -1
-	for i, s := range body {
-		if _, ok := s.(*ast.ForStmt); ok {
-			if loopAt >= 0 {
-				k.fail(s, "second loop")
-			}
-			loopAt = i
-		}
-	}
-	if loopAt < 0 {
-		k.fail(fn, "no loop over the series")
-	}
-	if loopAt != len(body)-1 {
-		k.fail(body[loopAt+1], "statement after the loop other than the final return")
-	}
-	// pre-loop statements; the state variables may be declared there, so they are resolved afterwards
-	k.liveIn = map[*variable]bool{}
-	var pre strings.Builder
-	k.out = &pre
-	flush := func() {
-		for _, l := range strings.Split(strings.TrimRight(pre.String(), "\n"), "\n") {
-			if l != "" {
-				k.preLets = append(k.preLets, l)
-			}
-		}
-		pre.Reset()
-	}
-	var guardRets []*ast.ReturnStmt
-	for _, s := range body[:loopAt] {
-		switch s := s.(type) {
-		case *ast.DeclStmt:
-			k.localConst(s)
-		case *ast.IfStmt: // guard: if cond { return }
-			r, _ := func() (*ast.ReturnStmt, bool) {
-				if s.Init != nil || s.Else != nil || len(s.Body.List) != 1 {
-					return nil, false
-				}
-				r, ok := s.Body.List[0].(*ast.ReturnStmt)
-				return r, ok
-			}()
-			if r == nil {
-				k.fail(s, "if statement before the loop other than `if cond { return }`")
-			}
-			c, _ := k.boolean(s.Cond)
-			flush()
-			k.guards = append(k.guards, struct {
-				nLets int
-				cond  string
-			}{len(k.preLets), c})
-			guardRets = append(guardRets, r)
-		case *ast.AssignStmt:
-			if len(s.Lhs) != 1 || len(s.Rhs) != 1 {
-				k.fail(s, "multiple assignment")
-			}
-			id, _ := s.Lhs[0].(*ast.Ident)
-			if id != nil && s.Tok == token.DEFINE {
-				if c, ok := s.Rhs[0].(*ast.CallExpr); ok && len(c.Args) == 0 { // n := xs.Len1()
-					if sel, ok := c.Fun.(*ast.SelectorExpr); ok && sel.Sel.Name == "Len1" {
-						if x, ok := sel.X.(*ast.Ident); ok && k.lookup(x.Name) != nil && k.lookup(x.Name).kind == vSeries {
-							k.declare(id, vLen)
-							continue
-						}
-					}
-				}
-				if c, ok := s.Rhs[0].(*ast.CompositeLit); ok && len(c.Elts) == 1 { // idx := []int{0}
-					at, _ := c.Type.(*ast.ArrayType)
-					z, _ := c.Elts[0].(*ast.BasicLit)
-					if at != nil && at.Len == nil && z != nil && z.Value == "0" {
-						if t, ok := at.Elt.(*ast.Ident); ok && t.Name == "int" {
-							k.declare(id, vIdx)
-							continue
-						}
-					}
-				}
-			}
-			k.assign(0, s.Lhs[0], s.Tok, s.Rhs[0], s)
-		default:
-			k.fail(s, "statement %T before the loop", s)
-		}
-	}
-	flush()
-	k.states = stateOf(ret)
-	for _, v := range k.states {
-		v.state = true
-	}
-	for _, r := range guardRets { // a guard must return the (unchanged) state
-		if len(r.Results) != 0 || len(k.states) != 0 {
-			k.fail(r, "early return in a kernel with state")
-		}
-	}
-	// the loop header: for i := 0; i < n; i++
-	loop := body[loopAt].(*ast.ForStmt)
-	init, _ := loop.Init.(*ast.AssignStmt)
-	cond, _ := loop.Cond.(*ast.BinaryExpr)
-	post, _ := loop.Post.(*ast.IncDecStmt)
-	okHeader := init != nil && cond != nil && post != nil && init.Tok == token.DEFINE && len(init.Lhs) == 1 && cond.Op == token.LSS &&
-		post.Tok == token.INC
-	var iv *ast.Ident
-	if okHeader {
-		iv, _ = init.Lhs[0].(*ast.Ident)
-		z, _ := init.Rhs[0].(*ast.BasicLit)
-		c, _ := cond.X.(*ast.Ident)
-		p, _ := post.X.(*ast.Ident)
-		okHeader = iv != nil && z != nil && z.Value == "0" && c != nil && p != nil && c.Name == iv.Name && p.Name == iv.Name
-		if n, isId := cond.Y.(*ast.Ident); okHeader && isId {
-			okHeader = k.lookup(n.Name) != nil && k.lookup(n.Name).kind == vLen
-		} else if okHeader {
-			call, _ := cond.Y.(*ast.CallExpr)
-			okHeader = false
-			if call != nil && len(call.Args) == 0 {
-				if sel, ok := call.Fun.(*ast.SelectorExpr); ok && sel.Sel.Name == "Len1" {
-					x, _ := sel.X.(*ast.Ident)
-					okHeader = x != nil && k.lookup(x.Name) != nil && k.lookup(x.Name).kind == vSeries
-				}
-			}
-		}
-	}
-	if !okHeader {
-		k.fail(loop, "loop header other than `for i := 0; i < n; i++` over a series length")
-	}
-	k.push()
-	k.loopVar = k.declare(iv, vLoop)
-	k.inLoop = true
-	k.isSet, k.always = map[*variable]bool{}, map[*variable]bool{}
-	for _, o := range k.outputs {
-		k.always[k.outVar[o]] = true
-	}
-	var step strings.Builder
-	k.out = &step
-	for _, o := range k.outputs {
-		k.line(1, "let %s : α := Num.zero", k.outVar[o].lean)
-	}
-	k.block(loop.Body, 1, k.leaf)
-
-	// ---- render
-	var live []*variable
-	for _, v := range k.preLocals {
-		if k.liveIn[v] && !v.state {
-			live = append(live, v)
-		}
-	}
-	var params []*variable
-	for _, v := range k.scalars {
-		if !v.state {
-			params = append(params, v)
-		}
-	}
-	binder := func(vs []*variable) string {
-		if len(vs) == 0 {
-			return ""
-		}
-		names := []string{}
-		for _, v := range vs {
-			names = append(names, v.lean)
-		}
-		return " (" + strings.Join(names, " ") + " : α)"
-	}
-	names := func(vs []*variable) []string {
-		r := []string{}
-		for _, v := range vs {
-			r = append(r, v.name)
-		}
-		return r
-	}
-	var b strings.Builder
-	fmt.Fprintf(&b, "namespace %s\n", k.fresh0(fn.Name.Name))
-	fmt.Fprintf(&b, "/- %s:%d  func %s\n", rel, pos.Line, fn.Name.Name)
-	fmt.Fprintf(&b, "   scalar parameters: %s\n   state (returned, in order): %s\n   inputs: %s\n", strings.Join(names(k.scalars), " "),
-		strings.Join(names(k.states), " "), strings.Join(names(k.inputs), " "))
-	var outDesc []string
-	for _, o := range k.outputs {
-		d := o.name
-		if !k.always[k.outVar[o]] {
-			d += " (NOT set on every path: keeps the array's 0)"
-			rep.NotAlways = append(rep.NotAlways, o.name)
-		}
-		outDesc = append(outDesc, d)
-	}
-	fmt.Fprintf(&b, "   outputs: %s\n", strings.Join(outDesc, ", "))
-	if len(rep.Unused) > 0 {
-		fmt.Fprintf(&b, "   series neither read nor written: %s\n", strings.Join(rep.Unused, " "))
-	}
-	for _, a := range k.assumed {
-		fmt.Fprintf(&b, "   assumed: %s\n", a)
-	}
-	b.WriteString("-/\n")
-	all := binder(k.scalars)
-	// guard
-	fmt.Fprintf(&b, "/-- the kernel returns before the loop (no output is written) -/\ndef guard {α : Type} [Num α]%s : Bool :=\n", all)
-	if len(k.guards) == 0 {
-		b.WriteString("  false\n")
-	} else {
-		done, closing := 0, ""
-		for gi, g := range k.guards {
-			for _, l := range k.preLets[done:g.nLets] {
-				b.WriteString("  " + l + "\n")
-			}
-			done = g.nLets
-			if gi == len(k.guards)-1 {
-				b.WriteString("  " + g.cond + closing + "\n")
-			} else {
-				b.WriteString("  (" + g.cond + ") || (\n")
-				closing += ")"
-			}
-		}
-	}
-	// pre
-	if len(live) > 0 {
-		fmt.Fprintf(&b, "/-- values computed before the loop and used in it: %s -/\ndef pre {α : Type} [Num α]%s : %s :=\n",
-			strings.Join(names(live), ", "), all, tupleType(len(live)))
-		for _, l := range k.preLets {
-			b.WriteString("  " + l + "\n")
-		}
-		b.WriteString("  " + tupleOf(live) + "\n")
-	}
-	if len(k.states) > 0 {
-		fmt.Fprintf(&b, "/-- the state variables on entry to the loop -/\ndef init {α : Type} [Num α]%s : %s :=\n", all, tupleType(len(k.states)))
-		for _, l := range k.preLets {
-			b.WriteString("  " + l + "\n")
-		}
-		b.WriteString("  " + tupleOf(k.states) + "\n")
-	}
-	ret0 := ""
-	switch {
-	case len(k.states) > 0 && len(k.outputs) > 0:
-		ret0 = "(" + tupleType(len(k.states)) + ") × (" + tupleType(len(k.outputs)) + ")"
-	case len(k.states) > 0:
-		ret0 = tupleType(len(k.states))
-	default:
-		ret0 = tupleType(len(k.outputs))
-	}
-	fmt.Fprintf(&b, "/-- one iteration: parameters, pre-loop values, state, inputs at this step ↦ %s -/\n", map[bool]string{true: "(new state, outputs at this step)", false: "outputs at this step"}[len(k.states) > 0 && len(k.outputs) > 0])
-	fmt.Fprintf(&b, "def step {α : Type} [Num α]%s%s%s%s : %s :=\n", binder(params), binder(live), binder(k.states), binder(k.inputs), ret0)
-	b.WriteString(step.String())
-	fmt.Fprintf(&b, "end %s\n", k.fresh0(fn.Name.Name))
-	rep.Status = "ok"
-	rep.Params, rep.PreLive, rep.States, rep.Inputs, rep.Outputs = names(params), names(live), names(k.states), names(k.inputs), names(k.outputs)
-	rep.Guard, rep.Assumed, rep.Paths = len(k.guards) > 0, k.assumed, k.leaves
-	return b.String(), rep
-}
-
-func (k *kernel) fresh0(name string) string {
-	if leanKeywords[name] {
-		return "«" + name + "»"
-	}
-	return name
-}
-
-func translateOne(w *world, dir, fname string, nonNil bool) (text string, rep report) {
-	rep = report{Func: fname, File: dir, Status: "missing", Reason: "function not found in " + dir}
-	p := w.load(dir)
-	files := []string{}
-	for n := range p.files {
-		files = append(files, n)
-	}
-	sort.Strings(files)
-	for _, n := range files {
-		f := p.files[n]
-		for _, d := range f.Decls {
-			fd, ok := d.(*ast.FuncDecl)
-			if !ok || fd.Name.Name != fname || fd.Recv != nil {
-				continue
-			}
-			k := &kernel{w: w, p: p, file: f, fn: fd, imp: imports(f), nonNil: nonNil, leanOf: map[token.Pos]string{}, used: map[string]bool{}}
-			func() {
-				defer func() {
-					if r := recover(); r != nil {
-						u, ok := r.(unsupported)
-						if !ok {
-							panic(r)
-						}
-						pos := w.fset.Position(fd.Pos())
-						rel, _ := filepath.Rel(w.repo, pos.Filename)
-						text, rep = "", report{Func: fname, File: rel, Line: pos.Line, Status: "unsupported", Reason: u.msg}
-					}
-				}()
-				text, rep = k.translate()
-			}()
-			return
-		}
-	}
-	return
 }
 
 func main() {
@@ -1436,7 +384,9 @@ func main() {
 		"One namespace per Go function: `guard` (early return before the loop), `pre` (values computed before the loop),\n" +
 		"`init` (state on loop entry), `step` (one iteration). Assignments are shadowing `let`s in program order; an `if` that\n" +
 		"cannot end the step is a merge `let phiN := if … then (…) else (…)`; an output not set on a path keeps `Num.zero`.\n-/\n" +
-		"set_option linter.unusedVariables false\nnamespace OW.Gen.K\nopen OW\n\n")
+		"set_option linter.unusedVariables false\nnamespace OW.Gen.K\nopen OW\n\n" +
+		"/-- `for i := 0; i < n; i++ { c = body c; if <break> { break } }`: `body` returns the new carried values and whether the loop is left -/\n" +
+		"def boundedLoop {σ : Type} (body : σ → σ × Bool) : Nat → σ → σ\n  | 0, c => c\n  | n + 1, c => let r := body c; if r.2 then r.1 else boundedLoop body n r.1\n\n")
 	var reps []report
 	var tied []string
 	for _, t := range table {
